@@ -565,6 +565,20 @@ theorem enum_exact (convert toUpper : Bool) (env : EnumEnv) (v : Val)
 def infEnv : EnumEnv := ⟨false, .none, true, fun _ => .raises .overflowError, fun _ _ => .raises .valueError⟩
 example : vIsEnum true true infEnv (.float .pinf false) = .raises .validator := rfl
 
+/-- the date the source adds the seconds to is the literal 1970-01-01 (about the generated `dateTimeUnixTimestampEpoch`): a
+    timestamp denotes the same naive datetime in every time zone -/
+theorem unix_epoch_is_1970 : epochUs = some 0 := by decide
+
+theorem addEpoch_eq (us : Int) :
+    addEpoch us = if minUs ≤ us ∧ us ≤ maxUs then .ok (mkDatetime us) else .raises .overflowError := by
+  simp [addEpoch, unix_epoch_is_1970]
+
+/-- **No import-time computation** (about the generated list): the modules of the validators package and convert_value.py
+    compute nothing when they are imported — no module- or class-level value, parameter default or decorator argument is
+    derived from the environment of the importing process (time zone, locale, clock), so what a validator does is a function
+    of its configuration and its argument alone, as the theorems of this file assume. -/
+theorem no_import_time_computation : importTimeComputations = [] := by decide
+
 /-- **DateTimeUnixTimestamp.** accepted ⇔ the value is an int / float / str, `float(v)` succeeds, `timedelta(seconds=…)`
     succeeds with `us` microseconds and `datetime.min ≤ epoch + us ≤ datetime.max`; returns that datetime. -/
 theorem unix_exact (fl : Orc Num) (td : Orc Int) (v : Val)
@@ -599,7 +613,7 @@ theorem unix_exact (fl : Orc Num) (td : Orc Int) (v : Val)
         simp [tryExcept, this, dateTimeUnixTimestampHandler1, raiseExceptionClass]
       | ok us =>
         by_cases hr : minUs ≤ us ∧ us ≤ maxUs
-        · simp only [tryExcept, addEpoch, hr, and_self, ↓reduceIte]
+        · simp only [tryExcept, addEpoch_eq, hr, and_self, ↓reduceIte]
           refine ⟨?_, ?_⟩
           · intro r; constructor
             · intro h; cases h; exact ⟨hyes, x, us, rfl, rfl, hr.1, hr.2, rfl⟩
@@ -607,7 +621,7 @@ theorem unix_exact (fl : Orc Num) (td : Orc Int) (v : Val)
               cases hu; rw [hr2]
           · intro e h; cases h
         · have hr' : ¬ (minUs ≤ us ∧ us ≤ maxUs) := hr
-          simp only [tryExcept, addEpoch, hr, ↓reduceIte, hov, dateTimeUnixTimestampHandler1, raiseExceptionClass]
+          simp only [tryExcept, addEpoch_eq, hr, ↓reduceIte, hov, dateTimeUnixTimestampHandler1, raiseExceptionClass]
           refine ⟨?_, ?_⟩
           · intro r; constructor
             · intro h; cases h
